@@ -141,17 +141,39 @@ def strip_comments(text):
     return re.sub(r"--.*", "", text)
 
 
-def grep_forbidden():
-    hits = []
-    for dp, dn, fn in os.walk(LEAN):
-        if ".lake" in dp:
+def import_closure(module):
+    """Lean source files (within lean/) that `module` transitively imports, itself included."""
+    seen, todo = {}, [module]
+    while todo:
+        m = todo.pop()
+        if m in seen:
             continue
-        for f in fn:
-            if f.endswith(".lean"):
-                p = os.path.join(dp, f)
-                for i, l in enumerate(strip_comments(open(p).read()).split("\n")):
-                    if FORBIDDEN.search(l):
-                        hits.append(f"{p}:{i+1}: {l.strip()}")
+        path = os.path.join(LEAN, m.replace(".", "/") + ".lean")
+        if not os.path.exists(path):
+            continue
+        seen[m] = path
+        for line in open(path).read().split("\n"):
+            mm = re.match(r"\s*import\s+(\S+)", line)
+            if mm and (mm.group(1).startswith("InvProxy") or mm.group(1).startswith("Driver")):
+                todo.append(mm.group(1))
+    return seen
+
+
+def grep_forbidden(module=None):
+    """Forbidden constructs in the sources the property's theorems depend on (its import closure)."""
+    hits = []
+    if module:
+        files = sorted(import_closure(module).values())
+    else:
+        files = []
+        for dp, dn, fn in os.walk(LEAN):
+            if ".lake" in dp:
+                continue
+            files += [os.path.join(dp, f) for f in fn if f.endswith(".lean")]
+    for p in files:
+        for i, l in enumerate(strip_comments(open(p).read()).split("\n")):
+            if FORBIDDEN.search(l):
+                hits.append(f"{p}:{i+1}: {l.strip()}")
     return hits
 
 
